@@ -27,7 +27,8 @@ _SIMPLE = {0x07: "\\a", 0x08: "\\b", 0x1b: "\\e", 0x09: "\\t", 0x0a: "\\n", 0x0b
 def esc_bytes(data, style=0):
     """Render bytes inside a non-raw string literal.
     style 0: readable; 1: three-digit octal escapes for non-printables; 2: \\xNN for everything;
-    3: three-digit octal for everything."""
+    3: three-digit octal for everything; 4: as 0 here -- the string renderer then shortens octal escapes
+    to one or two digits where the next character allows it."""
     out = []
     for b in data:
         if b == 0x22:
@@ -141,15 +142,23 @@ class Renderer:
         parts, raw = n[1], n[2]
         st = self.o.get("escstyle", 0)
         atoms = []          # (text inside a raw segment, text inside an ordinary segment); never split inside one
-        for p in parts:
+        for pi, p in enumerate(parts):
             if isinstance(p, bytes):
                 i = 0
                 while i < len(p):
                     # in a raw segment a backslash and the byte after it are lexed (and kept) as a pair
                     k = 2 if (raw and p[i] == 0x5c and i + 1 < len(p)) else 1
                     piece = p[i:i + k]
-                    atoms.append(("".join("%%" if b == 0x25 else chr(b) for b in piece),
-                                  "".join(esc_bytes(piece[j:j + 1], st) for j in range(len(piece)))))
+                    plain = "".join(esc_bytes(piece[j:j + 1], st) for j in range(len(piece)))
+                    if st == 4 and k == 1 and (piece[0] < 0x20 or piece[0] >= 0x7f):
+                        # the shortest octal escape (\0, \7, \12, \177) wherever no octal digit follows it
+                        nxt = p[i + 1] if i + 1 < len(p) else None
+                        last_of_part = nxt is None and (pi + 1 >= len(parts) or not isinstance(parts[pi + 1], bytes))
+                        if last_of_part or (nxt is not None and 0x20 <= nxt < 0x7f and chr(nxt) not in "01234567"):
+                            plain = "\\%o" % piece[0]
+                        else:
+                            plain = "\\%03o" % piece[0]
+                    atoms.append(("".join("%%" if b == 0x25 else chr(b) for b in piece), plain))
                     i += k
             else:
                 sug = splice_sugar(p) if self.o.get("sugar", True) else None
